@@ -179,3 +179,25 @@ func addrEscapesOfField(ctx *Ctx, named types.Type, field int) []ssa.Instruction
 	}
 	return out
 }
+
+// edgeDominates reports whether every path from the entry to n passes through the
+// edge from -> from.Succs[k]. (The successor block alone dominating n is not enough:
+// it may have other predecessors that bypass the branch.)
+func edgeDominates(from *ssa.BasicBlock, k int, n *ssa.BasicBlock) bool {
+	s := from.Succs[k]
+	if from.Succs[0] == from.Succs[1] {
+		return false
+	}
+	if !s.Dominates(n) {
+		return false
+	}
+	for _, p := range s.Preds {
+		if p == from {
+			continue
+		}
+		if !s.Dominates(p) { // a predecessor that is not inside the region (not a back edge)
+			return false
+		}
+	}
+	return true
+}
